@@ -441,7 +441,13 @@ impl Model for M16 {
             if e.is_share_container() {
                 // containers hold unparsed bytes: validated when used
                 let used = v.use_container();
-                o.calls(3);
+                // a second attempt with the very same value must not fare better than the first
+                let again = v.use_container();
+                o.calls(6);
+                if let (Ok(Some(false)), Ok(Some(true))) = (&used, &again) {
+                    o.outcome("container:bad-payload-used-on-second-attempt");
+                    o.expect(&format!("{}:use-repeated", key), false, "Err from every operation that uses the payload, every time", "an operation succeeded on the second attempt");
+                }
                 match used {
                     Err(p) => {
                         o.outcome("container:use-panics");
